@@ -857,10 +857,15 @@ class SigmaRegularExpression(SigmaType):
         """
         Replace all occurrences of string part matching regular expression with placeholder.
         """
-        return [
-            SigmaRegularExpression(str(sigmastr), self.flags)
-            for sigmastr in self.regexp.replace_placeholders(callback)
-        ]
+        result = []
+        for sigmastr in self.regexp.replace_placeholders(callback):
+            regexp = SigmaRegularExpression(str(sigmastr), self.flags)
+            if sigmastr.contains_placeholder():
+                # keep placeholders that were not replaced, e.g. because they are left to a later
+                # pipeline item; parsing their printed form would turn them into plain text.
+                regexp.regexp = sigmastr
+            result.append(regexp)
+        return result
 
 
 @dataclass
